@@ -51,6 +51,14 @@ NEEDS = {
  "C08c-deviate-parent-cache-stale": ("C08", ["C08"], "one module: a deviation of P/x, then not-supported on P (or above), then a deviation of P/y with the same parent spelling: applied to the detached subtree, not reported"),
  "C09c-enum-equal-sorted-sets": ("C09", ["C09"], "a union with two enumeration (or bits) members that have the same names and the same set of values in another assignment: the second member is dropped"),
  "C10c-coalesce-addquantum-wrap": ("C10", ["C10"], "a range part ending at 18446744073709551615 followed by a part nested in it: addQuantum wraps to 0"),
+ "C11c-closure-only-for-grown": ("C11", ["C11", "C18"], "Process, load a module that derives from an identity which is itself derived, Process again: the ancestor's list is not recomputed"),
+ "C12c-dup-rpc-io-parent-lost": ("C12", ["C12", "C04", "C06"], "an action in a grouping used under config false or in another module, or added by augment: copied input/output keep the parent of the source tree"),
+ "C13c-findindir-prefix-swapped": ("C13", ["C13"], "a dated file of a module whose name is a prefix of the wanted name (acme@2021.yang for acme-types, lib@2021 for lib@2020-01-01) in an earlier search-path directory"),
+ "C14c-set-same-value-noop": ("C14", ["C14"], "a bits type stating one bit name twice, the second resolving to the position the first got"),
+ "C15c-less-scaleup-wrap": ("C15", ["C15"], "two decimals with different fraction digits whose coarser value times 10^d wraps around 2^64"),
+ "C16c-backup-by-byte-width": ("C16", ["C16"], "a multi-byte rune inside an unquoted token: every later position on the line (or in the file) is too small"),
+ "C17c-dup-output-parent-stale": ("C17", ["C17", "C04"], "a copied rpc/action (grouping, augment body, submodule) with an output and a lookup that leaves the output through '..'"),
+ "C20c-nested-writer-flattened": ("C20", ["C20"], "an indenting writer on top of another indenting writer with writes switching between the two in the middle of a line, or an inner prefix containing a line break"),
  "C20b-empty-write-clears-partial": ("C20", ["C20"], "zero-length Write in the middle of a line clears the mid-line flag: the next Write gets a prefix inside the line"),
  "C20-early-out-continued-line": ("C20", ["C20"], "short write of 1..len(prefix) bytes on a Write that continues a partial line returns 0 although caller bytes were written"),
 }
